@@ -290,7 +290,8 @@ class Cloader:
 
                 pk = self.link.receive_packet(1)
                 retry_counter -= 1
-            if (retry_counter < 0):
+            if (not pk or pk.header != 0xFF or
+                    struct.unpack('<BBHH', pk.data[0:6]) != (addr, 0x1C, page, (i * 25))):
                 return None
             else:
                 buff += pk.data[6:]
@@ -329,7 +330,10 @@ class Cloader:
             pk = self.link.receive_packet(2.5)
             retry_counter -= 1
 
-        if retry_counter < 0:
+        # An answer to the last attempt is as good as any other, only give up
+        # if there still is no answer
+        if (not pk or pk.header != 0xFF or len(pk.data) < 2 or
+                struct.unpack('<BB', pk.data[0:2]) != (addr, 0x18)):
             self.error_code = -1
             return False
 
